@@ -107,6 +107,11 @@ class Walker(object):
     def member_slot(self, ty, members, prefix, cname, index=None):
         """Slot of member [cname] (of declared type [ty]) inside [members];
         index: C index expression for `elements`."""
+        if ty.kind == 'ref':
+            # references to BOOLEAN / INTEGER / NULL types are declared inline (no struct of their own)
+            rt = self.spec.resolve(ty)
+            if rt.kind in ('bool', 'int', 'null'):
+                ty = rt
         if ty.kind == 'null':
             if any(m.name == cname for m in members):
                 raise LayoutError('NULL member %r has storage' % cname)
@@ -331,6 +336,35 @@ class Walker(object):
             raise ValueError(k)
 
 
+def check_named_bits(spec, header, walker):
+    """The header declares one constant per named bit; with the right-aligned
+    integer representation of a BIT STRING (SIZE(n)) bit k is 1 << (n-1-k)."""
+    def rec(t, prefix, path):
+        k = t.kind
+        if k == 'bits' and t.named:
+            for name, bit in t.named:
+                cname = (prefix + ''.join('_' + p for p in path) + '_' + canonical(name)).upper()
+                if cname not in header.consts:
+                    raise LayoutError('constant %s for named bit %s(%d) missing' % (cname, name, bit))
+                got = header.consts[cname][1]
+                want = 1 << (t.n - 1 - bit)
+                if got != want:
+                    raise LayoutError('named bit %s(%d) of BIT STRING (SIZE(%d)): constant %s = 0x%x, the encoder '
+                                      'takes the value right-aligned (bit %d is 0x%x)' % (name, bit, t.n, cname, got, bit, want))
+        elif k == 'seq':
+            for m in t.members:
+                rec(m.ty, prefix, path + [canonical(m.name)])
+        elif k == 'seqof':
+            rec(t.elem, prefix, path)
+        elif k == 'choice':
+            for n, a in t.alts:
+                rec(a, prefix, path + [canonical(n)])
+    for m, ts in spec.modules:
+        for n, t in ts:
+            sname = walker.struct_of[(m, n)]
+            rec(spec.resolve(t) if t.kind == 'ref' else t, sname[:-2], [])
+
+
 def expected_tokens(spec, ty, v, out=None):
     """The text dump() prints for value v (Python codec value form)."""
     top = out is None
@@ -443,10 +477,19 @@ static int hexval(int c) { return c <= '9' ? c - '0' : (c | 32) - 'a' + 10; }
 static void run_fuzz(const char *path, const struct tinfo *ts, int nt, size_t cap)
 {
     FILE *f = fopen(path, "r");
-    static char line[400000];
+    size_t lcap = 1 << 16;
+    char *line = malloc(lcap);
     uint8_t *out = malloc(cap);
     if (!f) { printf("NOFILE\n"); exit(3); }
-    while (fgets(line, sizeof line, f)) {
+    for (;;) {
+        size_t ll = 0; int ch;
+        while ((ch = fgetc(f)) != EOF && ch != '\n') {
+            if (ll + 2 > lcap) { lcap *= 2; line = realloc(line, lcap); }
+            line[ll++] = (char)ch;
+        }
+        line[ll] = 0;
+        if (ch == EOF && ll == 0) break;
+        {
         int ti, off = 0; long n = 0, r, r2, r3; uint8_t *in, *raw; void *v, *w; const struct tinfo *t;
         if (sscanf(line, "%d %n", &ti, &off) < 1 || ti < 0 || ti >= nt) continue;
         t = &ts[ti];
@@ -472,8 +515,9 @@ static void run_fuzz(const char *path, const struct tinfo *ts, int nt, size_t ca
         }
         printf("\n"); fflush(stdout);
         free(in); free(v); free(w);
+        }
     }
-    free(out);
+    free(out); free(line);
     fclose(f);
 }
 '''
@@ -494,6 +538,7 @@ def build_driver(spec, header, header_name, cases, fuzz_cap=1 << 18):
         dump = []
         w.dump(spec.index[(m, n)], w.top_slot(m, n), dump)
         parts.append(TYPE_FUNCS % dict(i=i, s=sname, f=sname[:-2], dump='\n'.join('    ' + l for l in dump)))
+    check_named_bits(spec, header, w)
     parts.append(DRIVER_TAIL)
     parts.append('static const struct tinfo TYPES[] = {')
     for i, (m, n) in enumerate(types):
